@@ -469,7 +469,7 @@ func genKap(proto string) func(*rapid.T) kapCase {
 			st := mkKapStep(n, byte(k), rapid.IntRange(0, 2).Draw(t, "failKind"), rapid.Uint64().Draw(t, "seed"),
 				rapid.IntRange(1, numFaultModes).Draw(t, "mode"), drawChunk(t), rapid.IntRange(0, 3).Draw(t, "flags"), rapid.Bool().Draw(t, "alt"))
 			if k == 'S' && rapid.IntRange(0, 2).Draw(t, "refusedFirst") == 0 {
-				st.Blocks = append(drawBlocks(t, n), st.Blocks...)
+				st.Blocks = append(drawBlocks(t, func(kind int, seed uint64) []byte { return mkBlock(kind, n, seed) }), st.Blocks...)
 			}
 			hc := st
 			c.Steps = append(c.Steps, hc)
